@@ -6,6 +6,7 @@ RULE = ("the real binary with --num-threads 1 vs {2,4,16,64} on file sets mixing
         "(job_start/add/lock/emit/unlock/job_end/totals), which the Lean pool model replays: a trace is rejected if a write happens outside "
         "a lock span, two spans overlap, a file's lint diagnostics use more than one span, or the summary differs from the sum of all "
         "additions; stdout of the multi-threaded run is parsed and compared per file with the sequential run; "
+        "several hundred files in nested directories under a low RLIMIT_NOFILE (1 vs 2/4/16 threads); "
         "non-trivial = a trace with >= 2 workers and >= 2 lock spans")
 
 BIG = "".join(f"local big_{i} = {i}\n" for i in range(120))
@@ -182,6 +183,38 @@ def body(ctx):
                     evs = parse_trace(tp)
                     panics = err.count("The application panicked")
                     lines.append(f"C18.trace\t({' '.join(evs)})\t({rc} {panics} {'true' if aw else 'false'})")
+        # many files under a low limit on open file descriptors: a sequential run holds one file open at a time, and so
+        # does every worker — the number of descriptors in use must not grow with the number of files waiting to be linted
+        for si in range(1 if ctx.tier == "quick" else 4):
+            d = os.path.join(ctx.workdir, f"manyfiles{si}")
+            n_dirs, per_dir = (8, 60) if ctx.tier == "quick" else (12, 90)
+            n_warn = 0
+            for di in range(n_dirs):
+                sub = os.path.join(d, "src", f"d{di:02d}")
+                os.makedirs(sub, exist_ok=True)
+                for i in range(per_dir):
+                    kind = (di * per_dir + i) % 5
+                    with open(os.path.join(sub, f"m{i:03d}.lua"), "w") as fh:
+                        if kind == 0:
+                            fh.write("local unused_m = 1\n"); n_warn += 1
+                        else:
+                            fh.write("return 1\n")
+            cli.write_config(d, name="cfg.toml")
+            limit = 96
+            rc1, out1, err1 = cli.run_selene(["--config", "cfg.toml", "--num-threads", "1", "--display-style", "json2", "src"], d, timeout=300, nofile=limit)
+            d1, s1, bad1 = cli.parse_json_lines(out1)
+            ctx.evaluations += 1
+            if s1 is None or s1.get("warnings") != n_warn or s1.get("errors") != 0:
+                ctx.violation(f"implementation violates the specification: sequential run over {n_dirs * per_dir} files ({n_warn} with one warning each) under RLIMIT_NOFILE={limit} reports summary {s1}",
+                              f"directory: {d}\nargument: src\nulimit -Sn {limit}\nstdout (tail):\n{out1[-600:]}\nstderr (head):\n{err1[:600]}")
+                continue
+            for threads in (2, 4, 16):
+                rc, out, err = cli.run_selene(["--config", "cfg.toml", "--num-threads", str(threads), "--display-style", "json2", "src"], d, timeout=300, nofile=limit)
+                dn, sn, badn = cli.parse_json_lines(out)
+                ctx.evaluations += 1
+                if badn or sn != s1 or rc != rc1 or per_file(dn) != per_file(d1):
+                    ctx.violation(f"implementation violates the specification: --num-threads {threads} over {n_dirs * per_dir} files under RLIMIT_NOFILE={limit}: summary/exit {sn}/{rc}, sequential run {s1}/{rc1}",
+                                  f"directory: {d}\nargument: src ({n_dirs} directories x {per_dir} files)\nulimit -Sn {limit}\nthreads: {threads}\nstderr (head):\n{err[:600]}")
     finally:
         if load:
             for p in load:
